@@ -300,11 +300,11 @@ Definition rename1 (r : arec) (no : string * string) : arec :=
 Definition e_rename (l : list (string * string)) (r : arec) : arec := fold_left rename1 l r.
 Definition e_length (r : arec) : arec := set_attrs r (set_key "seq_length" (VI (rlen r)) (rattrs r)).
 
-(** CutSequenceWorker (after fix 7ce2231), from/to as given on the command line; None = Subsequence error *)
+(** CutSequenceWorker (after fixes 7ce2231 and negative-from), from/to as given on the command line; None = Subsequence error *)
 Definition e_cut (from to : Z) (r : arec) : option arec :=
   let L := rlen r in
   let from' := if 0 <? from then from - 1 else from in       (* `from--` at construction *)
-  let f := if from' <? 0 then L + from' + 1 else if 0 <? from' then from' else 0 in
+  let f := if from' <? 0 then L + from' else if 0 <? from' then from' else 0 in       (* after the fix: -1 = the last base *)
   let t := if to <? 0 then L + to + 1 else if 0 <? to then to else 0 in
   let f := if f <? 0 then 0 else f in
   let t := if L <=? t then L else t in
@@ -570,7 +570,10 @@ Definition pat_match (ci : bool) (p : pat) (s : string) : bool :=
   if pstart p then match_at ci (patoms p) (pend p) s else search ci (patoms p) (pend p) s.
 
 Inductive pexpr := PTrue | PFalse | PLenGe (n : Z) | PLenLe (n : Z) | PCountEq (n : Z) | PIdEq (s : string)
-  | PHas (k : string) | PAnd (a b : pexpr) | POr (a b : pexpr) | PNot (a : pexpr).
+  | PHas (k : string) | PAnd (a b : pexpr) | POr (a b : pexpr) | PNot (a : pexpr)
+  (* functions of the embedded language (language.go): len(annotations) >= n; contains(annotations,k) && ismap(annotations.k);
+     contains(annotations,k) && annotations.k > n; ifelse(sequence.Len() > n, true, false) *)
+  | PNAttrGe (n : Z) | PIsMap (k : string) | PAttrGt (k : string) (n : Z) | PIfLen (n : Z).
 Fixpoint pexpr_eval (e : pexpr) (r : arec) : bool :=
   match e with
   | PTrue => true | PFalse => false
@@ -581,16 +584,27 @@ Fixpoint pexpr_eval (e : pexpr) (r : arec) : bool :=
   | PAnd a b => pexpr_eval a r && pexpr_eval b r
   | POr a b => pexpr_eval a r || pexpr_eval b r
   | PNot a => negb (pexpr_eval a r)
+  | PNAttrGe n => n <=? Z.of_nat (List.length (rattrs r))
+  | PIsMap k => match lookup k (rattrs r) with Some (VM _) => true | _ => false end
+  | PAttrGt k n => match lookup k (rattrs r) with Some (VI z) => n <? z | _ => false end
+  | PIfLen n => if n <? rlen r then true else false
   end.
-Inductive vexpr := EInt (z : Z) | EStr (s : string) | ELenPlus (z : Z) | ECountTimes (z : Z) | EId | EIdSuffix (s : string).
+Inductive vexpr := EInt (z : Z) | EStr (s : string) | ELenPlus (z : Z) | ECountTimes (z : Z) | EId | EIdSuffix (s : string)
+  (* annotations.k (an evaluation error when the record has no attribute k); ifelse(sequence.Len() > n, a, b);
+     printf("%s_%d", sequence.Id(), sequence.Len()); int(sequence.Len()/2) *)
+  | EAttr (k : string) | EIfLen (n : Z) (a b : string) | EPrintf | EHalfLen.
 Definition vexpr_eval (e : vexpr) (r : arec) : option aval :=
-  Some match e with
-       | EInt z => VI z | EStr s => VS s | ELenPlus z => VI (rlen r + z) | ECountTimes z => VI (rcount r * z)
-       | EId => VS (rid r) | EIdSuffix s => VS (append (rid r) s)
-       end.
+  match e with
+  | EInt z => Some (VI z) | EStr s => Some (VS s) | ELenPlus z => Some (VI (rlen r + z)) | ECountTimes z => Some (VI (rcount r * z))
+  | EId => Some (VS (rid r)) | EIdSuffix s => Some (VS (append (rid r) s))
+  | EAttr k => lookup k (rattrs r)
+  | EIfLen n a b => Some (VS (if n <? rlen r then a else b))
+  | EPrintf => Some (VS (append (rid r) (append "_" (show_Z (rlen r)))))
+  | EHalfLen => Some (VI (rlen r / 2))
+  end.
 
 (** a fixed small taxonomy (the taxdump written by tools/props/c16.py) for the taxonomic restrictions *)
-Inductive tq := TSub (t : Z) | TRank (rk : string).
+Inductive tq := TSub (t : Z) | TRank (rk : string) | TSlot (k : string).   (* TSlot: -r KEY, the clade named by the record's own attribute KEY *)
 Definition tax_nodes : list (Z * (Z * string)) :=
   [(1, (1, "no rank")); (10, (1, "kingdom")); (11, (1, "kingdom")); (20, (10, "family")); (21, (11, "family"));
    (30, (20, "genus")); (31, (21, "genus")); (40, (30, "species")); (41, (30, "species")); (42, (31, "species"));
@@ -607,10 +621,31 @@ Fixpoint tpath (fuel : nat) (x : Z) : list (Z * string) :=
   end.
 (** BioSequence.Taxid(): the int attribute "taxid", 1 (root) when absent *)
 Definition rtaxid (r : arec) : Z := match lookup "taxid" (rattrs r) with Some (VI z) => z | _ => 1 end.
+Fixpoint all_digits (s : string) : bool :=
+  match s with
+  | EmptyString => true
+  | String c t => let n := N_of_ascii c in (N.leb 48 n && N.leb n 57)%bool && all_digits t
+  end.
+Fixpoint parse_dec (s : string) (acc : Z) : Z :=
+  match s with EmptyString => acc | String c t => parse_dec t (acc * 10 + (Z.of_N (N_of_ascii c) - 48)) end.
 Definition ctax (q : tq) (r : arec) : bool :=
   match q with
   | TSub t => existsb (fun n => fst n =? t) (tpath 32 (rtaxid r))
   | TRank rk => existsb (fun n => String.eqb (snd n) rk) (tpath 32 (rtaxid r))
+  | TSlot k =>
+    (* Taxonomy.IsSubCladeOfSlot: fmt.Sprint of the attribute read as a decimal taxid of the taxonomy *)
+    match lookup k (rattrs r) with
+    | Some v =>
+      let s := show_val v in
+      if all_digits s && negb (String.eqb s "") then
+        let t := parse_dec s 0 in
+        match tax_find t tax_nodes with
+        | Some _ => existsb (fun n => fst n =? t) (tpath 32 (rtaxid r))
+        | None => false
+        end
+      else false
+    | None => false
+    end
   end.
 
 (** ** approximate patterns of the correspondence: IUPAC strings; <= e substitutions (window) or <= e edit operations (Sellers) *)
@@ -794,7 +829,10 @@ Definition opt_mates (m : option (list arec)) (n : nat) : list (option arec) :=
 Inductive ccase :=
 | CGrep (o : cgopts) (ds : list arec) (mates : option (list arec)) (kept : list bool)
 | CAnnot (o : caopts) (sel : option cgopts) (ds : list arec) (out : list arec)
-| CDist (d : dopts) (n : Z) (ds : list arec) (dest : list (string * string)) (files : list ((string * string) * list string)).
+| CDist (d : dopts) (n : Z) (ds : list arec) (dest : list (string * string)) (files : list ((string * string) * list string))
+(* obimultiplex: the reads as they leave the barcode worker (input order; attributes projected on obimultiplex_error), the
+   batch size, -u given or not, --keep-errors, and the identifiers read from the unidentified file / stdout, in file order *)
+| CMux (n : Z) (with_u keep : bool) (reads : list arec) (unid out : list string).
 
 Definition case_ok (c : ccase) : bool :=
   match c with
@@ -820,6 +858,19 @@ Definition case_ok (c : ccase) : bool :=
     list_eqb pair_eqb (map (dist_code d) items) dest &&
     forallb (fun id => existsb (fun x => arec_eqb (snd x) (snd (fst id))) (slice_of _ _ pair_eqb (snd id) sl)) (combine items dest) &&
     Nat.eqb (List.length (flat_map snd sl)) (List.length ds)
+  | CMux n with_u keep reads unid out =>
+    let err := fun r : arec => has_key "obimultiplex_error" (rattrs r) in
+    let h := Nat.div (List.length reads) 2 in
+    let bs := [firstn h reads; skipn h reads] in
+    if with_u then
+      (* IExtractBarcode: unidentified, out = newIter.DivideOn(HasAttribute("obimultiplex_error"), batch size) *)
+      let d := divide_batches arec (Z.to_nat n) err bs in
+      list_eqb String.eqb (map rid (List.concat (fst d))) unid && list_eqb String.eqb (map rid (List.concat (snd d))) out
+    else
+      (* without -u: out.FilterOn(HasAttribute("obimultiplex_error").Not()) unless --keep-errors *)
+      let o := if keep then List.concat bs
+               else List.concat (rebatch arec (Z.to_nat n) (filter_batches arec (holds (p_not (Some err))) bs)) in
+      list_eqb String.eqb (map rid o) out && match unid with [] => true | _ => false end
   end.
 Fixpoint mismatches_from (i : nat) (l : list ccase) : list nat :=
   match l with
